@@ -390,6 +390,20 @@ func judgePrinter(rep *lib.Report, prop string, c *lib.Ctx, ln *printerLine, res
 	if is("C11") {
 		judgeC11(rep, c, ln, res, kase)
 	}
+	if is("C08") {
+		judgeC08(rep, c, ln, res, kase)
+		// joining what the case holds (Join / JoinTo are not entry points of the printer model)
+		var parts [][]byte
+		for _, t := range ln.C.Ts {
+			if t.K == "rstring" {
+				parts = append(parts, c.Subst(t.B))
+			}
+		}
+		if len(parts) > 0 {
+			judgeJoin(rep, append(parts, res.Out), []byte(", "))
+			judgeJoin(rep, append([][]byte{res.Out}, parts...), []byte("\u2039,\u203a"))
+		}
+	}
 	if is("C16") {
 		judgeC16(rep, c, ln, res, kase)
 	}
